@@ -2,6 +2,7 @@ import NurbsVerif.Model.Basis
 import NurbsVerif.Model.BasisDersOne
 import NurbsVerif.Model.Eval
 import NurbsVerif.Model.Grid
+import NurbsVerif.Model.BasisDers
 import NurbsVerif.Driver.Parse
 /- handlers for span / basis / knot vector / evaluation / derivative ops (C01, C02, C03, C17, C18) -/
 namespace Drv
@@ -51,6 +52,10 @@ def handleBasic : List String → Option String
       let p ← p.toNat?; let U ← parseList us; let k ← k.toNat?; let u ← parseRat u; let d ← d.toNat?
       if k < p ∨ k + p ≥ U.length ∨ d > p then return "ERR"
       return showPts (basisDers p (fn U) k u d)
+  | ["bders23", p, us, k, u, d] => do
+      let p ← p.toNat?; let U ← parseList us; let k ← k.toNat?; let u ← parseRat u; let d ← d.toNat?
+      if k < p ∨ k + p ≥ U.length ∨ d > p then return "ERR"
+      return showPts (basisFunsDersA23 p (fn U) k u d)
   | ["linspace", a, b, n] => do
       let a ← parseRat a; let b ← parseRat b; let n ← n.toNat?
       return showList (linspace a b n tolMult)
